@@ -240,7 +240,7 @@ func (g *G) fileEntry(i int, typ string) *Content {
 				add(sub + "/" + g.word(2) + rng.Pick(g.r, exts))
 			}
 			if g.r.P(1, 3) {
-				add(sub + "/" + g.word(1) + "/" + g.word(1) + "/" + g.word(2))
+				add(sub + "/nest-" + g.word(1) + "/nest-" + g.word(1) + "/" + g.word(2))
 				g.c.Feature("deep-nesting")
 			}
 		}
@@ -322,7 +322,7 @@ func (g *G) fileEntry(i int, typ string) *Content {
 			pat = "sub?" + strings.TrimPrefix(s2, "sub2") + "/*"
 			match = func(rel string) bool { return strings.HasPrefix(rel, s2+"/") }
 			if strings.TrimPrefix(s1, "sub1") == strings.TrimPrefix(s2, "sub2") {
-				match = func(rel string) bool { return strings.Contains(rel, "/") }
+				match = func(rel string) bool { return strings.HasPrefix(rel, "sub") && strings.Contains(rel, "/") }
 			} else {
 				common = sd + "/" + s2
 			}
